@@ -277,9 +277,31 @@ fn gen_c15_lander(rng: &mut Rng) -> Case {
     Case::File(FileCase { spec: FileSpec { knobs, entries: Entries::Literal(ents) }, env: EnvPlan::whole(), v1: false, big: None })
 }
 
+/// Data-block landers for large blocks: a value of 16384..=32767 bytes (three length bytes) followed
+/// by a value sized so that the block's uncompressed size lands exactly on (or one byte around) B.
+fn gen_c15_data_lander(rng: &mut Rng) -> Case {
+    let b = rng.urange(20_000, 60_000);
+    let v1 = rng.urange(16_384, (b - 2_000).min(32_767));
+    // size after two entries with one-byte keys: 12 + (1 + 3 + 1 + v1) + (1 + vl(v2) + 1 + v2)
+    let rest = b - 12 - (5 + v1) - 2;
+    let vl = if rest - 3 >= 16_384 { 3 } else if rest - 2 >= 128 { 2 } else { 1 };
+    let v2 = (rest - vl) as i64 + rng.range(0, 2) as i64 - 1;
+    let ents = vec![
+        (B(vec![b'a']), B(vec![0x11; v1])),
+        (B(vec![b'b']), B(vec![0x22; v2.max(0) as usize])),
+        (B(vec![b'c']), B(vec![0x33; rng.urange(0, 9)])),
+        (B(vec![b'd']), B(vec![0x44; rng.urange(0, 9)])),
+    ];
+    let knobs = Knobs { codec: 0, level: 0, block_size: Some(b), interval: None, levels: *rng.pick(&[0u8, 1, 2]), ctor: 0, fin: 0 };
+    Case::File(FileCase { spec: FileSpec { knobs, entries: Entries::Literal(ents) }, env: EnvPlan::whole(), v1: false, big: None })
+}
+
 pub fn gen_c15(rng: &mut Rng, tier: Tier) -> Case {
     if rng.chance(1, 6) {
         return gen_c15_lander(rng);
+    }
+    if rng.chance(1, 12) {
+        return gen_c15_data_lander(rng);
     }
     let mut spec = if rng.chance(1, 2) { gen::gen_layered_spec(rng, tier) } else { gen::gen_file_spec(rng, tier, false) };
     if rng.chance(1, 3) {
